@@ -239,6 +239,12 @@ PROPS['X02'] = dict(
     rule='mathext/util Min/Max/Clap of all ten integer types (values within +-2^30), typehelper.ToSlice, iohelper.AtToReader with arbitrary read sizes',
     assumptions=TRUST,
 )
+PROPS['X05'] = dict(
+    extra=True, trace=dict(module='Trace_SizeOf', cfg='Trace_SizeOf.cfg'), mc=dict(quick=[], thorough=[]), need_kinds=['stat'],
+    rule='size.Stat beyond its first line: the SHAPE of the rendering (per line: indentation level and the size printed on it) for seeded typed value trees of depth 1..4, rendering depth 0..4, maxItem in {-1, 0, 1, 2, 3, 100}, '
+         'judged against SizeOf!StatD (type names and labels are not modelled; maps with more than one entry are not generated: Go\'s map order is random)',
+    assumptions=TRUST,
+)
 PROPS['X04'] = dict(
     extra=True, trace=dict(module='Trace_Vers', cfg='Trace_Vers.cfg'), mc=dict(quick=[], thorough=[]), need_kinds=['vers'],
     gen=dict(quick=[bfs('Gen_Vers', 'Gen_Vers.cfg', 'vers', shards=4)], thorough=[bfs('Gen_Vers', 'Gen_Vers.cfg', 'vers', shards=8)]),
